@@ -1,6 +1,6 @@
 #!/bin/sh
 # tools/run_all.sh [tier] [ids...] : runs every claimed check once, prints a summary.
-cd /verif
+cd "$(dirname "$0")/.." || exit 2
 TIER="${1:-quick}"; shift
 IDS="$*"
 [ -z "$IDS" ] && IDS=$(/venv/bin/python -c "import json;print(' '.join(c['property_id'] for c in json.load(open('MANIFEST.json'))['checks']))")
